@@ -667,6 +667,39 @@ Lemma T_C06_drop s a s' :
   dks s' ≡ₚ map ekid (elems (s_rt s)) ++ dks s /\ dvs s' ≡ₚ map ev (elems (s_rt s)) ++ dvs s.
 Proof. intros Hl E. pose proof (map_drop_ledger s Hl) as H. unfold wpp in H. rewrite E in H. exact H. Qed.
 
+(* clone() and == drop nothing (the clones clone() makes live in the new map) *)
+Lemma T_C06_clone c s r s' :
+  lite s -> rt_clone c s = Ok r s' -> dks s' = dks s /\ dvs s' = dvs s /\ lite s'.
+Proof. apply nd_run, nd_rt_clone. Qed.
+Lemma T_C06_eq other s b s' :
+  lite s -> map_equal other s = Ok b s' -> dks s' = dks s /\ dvs s' = dvs s /\ lite s'.
+Proof. apply nd_run, nd_map_equal. Qed.
+
+(* drain() and into_iter(), consumed for j items and then dropped: the first j elements of the
+   iterator's order are handed to the caller; every other element - in either table - is dropped
+   exactly once; nothing stays behind *)
+Lemma T_C06_drain j s out s' :
+  lite s -> map_drain j false s = Ok out s' ->
+  exists l, out = map elem3 (firstn (N.to_nat j) l) /\ lite s' /\ elems (s_rt s') = [] /\
+    dks s' = rev (map ekid (skipn (N.to_nat j) l)) ++ dks s /\
+    dvs s' = rev (map ev (skipn (N.to_nat j) l)) ++ dvs s.
+Proof. intros Hl E. pose proof (map_drain_ledger j s Hl) as H. unfold wpp in H. rewrite E in H. exact H. Qed.
+Lemma T_C06_into_iter j s out s' :
+  lite s -> map_into_iter j s = Ok out s' ->
+  exists l, out = map elem3 (firstn (N.to_nat j) l) /\ lite s' /\ elems (s_rt s') = [] /\
+    dks s' = rev (map ekid (skipn (N.to_nat j) l)) ++ dks s /\
+    dvs s' = rev (map ev (skipn (N.to_nat j) l)) ++ dvs s.
+Proof. intros Hl E. pose proof (map_into_iter_ledger j s Hl) as H. unfold wpp in H. rewrite E in H. exact H. Qed.
+
+(* retain drops exactly what it removes: the key objects dropped so far together with those
+   still stored are, as a multiset, what they were before the call *)
+Lemma T_C06_retain_conserves_keys c keep delta s out s' :
+  lite s -> map_retain c keep delta s = Ok out s' ->
+  lite s' /\ dks s' ++ map ekid (elems (s_rt s')) ≡ₚ dks s ++ map ekid (elems (s_rt s)).
+Proof.
+  intros Hl E. pose proof (map_retain_conserves_keys c keep delta s Hl) as H. unfold wpp in H. rewrite E in H. exact H.
+Qed.
+
 (* the hypothesis [lite] holds in every reachable state: it is part of the invariant *)
 Lemma T_C06_lite_reachable R Esz s : Inv R Esz (s_rt s) -> lite s.
 Proof. apply Inv_lite. Qed.
